@@ -1,6 +1,7 @@
 """O5: independent matcher for the three pattern classes of the quantifier (base name, glob, `dir/`),
-evaluated on root-relative POSIX paths.  Returns True / False / None (None = don't care: the entry that a
-`dir/` pattern names is itself not decidable from a path string; everything beneath it is excluded)."""
+evaluated on root-relative POSIX paths.  Returns True / False / None (None = don't care: whether the entry that a
+`dir/` pattern names is excluded depends on its being a folder; callers that know pass is_dir).  Everything beneath such a
+folder is excluded."""
 import fnmatch
 
 DEFAULTS = [".DS_Store", "ascmhl", "ascmhl/"]
@@ -16,13 +17,15 @@ def classify(pattern):
     return "name"
 
 
-def match(patterns, relpath):
-    """gitwildmatch subset; a leading '!' re-includes (the last matching pattern decides)"""
+def match(patterns, relpath, is_dir=None):
+    """gitwildmatch subset; a leading '!' re-includes (the last matching pattern decides).
+    is_dir: whether the entry itself is a folder (True: a `dir/` pattern matching its name excludes it, False: such a
+    pattern says nothing about it, None: unknown to the caller - don't care is returned)"""
     if any(p.startswith("!") for p in patterns):
         res = False
         for pat in patterns:
             neg = pat.startswith("!")
-            m = match([pat[1:] if neg else pat], relpath)
+            m = match([pat[1:] if neg else pat], relpath, is_dir)
             if m is True:
                 res = not neg
             elif m is None and res is False and not neg:
@@ -39,7 +42,10 @@ def match(patterns, relpath):
             if any(fnmatch.fnmatchcase(c, name) for c in comps[:-1]):
                 return True
             if fnmatch.fnmatchcase(comps[-1], name):
-                dontcare = True
+                if is_dir is True:
+                    return True
+                if is_dir is None:
+                    dontcare = True
         else:
             if any(fnmatch.fnmatchcase(c, pat) for c in comps):
                 return True
